@@ -88,7 +88,7 @@ Proof.
   - (* TCplx *) intros bo l IHl r IHr alias c. cbn [toks render]. rewrite <- IHl, <- IHr.
     destruct (toks _ l); cbn [bind rmap]; [|reflexivity].
     destruct (toks _ r); cbn [bind rmap]; [|reflexivity].
-    f_equal. fl. reflexivity.
+    f_equal. destruct (wa c); fl; reflexivity.
   - (* TIn *) intros t IHt cont IHc negated alias c. cbn [toks render]. rewrite <- IHt, <- IHc.
     destruct (toks _ t); cbn [bind rmap]; [|reflexivity].
     destruct (toks _ cont); cbn [bind rmap]; [|reflexivity].
